@@ -101,6 +101,32 @@ Theorem C16_late_exclusive : forall tr s p q, run_late init tr = Some s ->
 Proof. exact late_exclusive. Qed.
 Print Assumptions C16_late_exclusive.
 
+(* Run kinds other than NORMAL (round 6).  A generate-only run takes the experiment lock but neither rotates
+   nor rebuilds the index; a dry run has no event at all.  Every theorem of this file quantifies over histories
+   in which such runs are interleaved with normal ones; in addition: whatever a generate-only run does, jobs/
+   and jobs.bak/ stay as they were (code as it was, and repaired order) ...                                  *)
+Theorem C16_generate_only_keeps_index : forall s p e s', ph s p = GenIn -> actor e = Some p ->
+  step s e = Some s' -> jobs s' = jobs s /\ bak s' = bak s.
+Proof. exact generate_only_keeps_index. Qed.
+Print Assumptions C16_generate_only_keeps_index.
+
+Theorem C16_generate_only_keeps_index_late : forall s p e s', ph s p = GenIn -> actor e = Some p ->
+  step_late s e = Some s' -> jobs s' = jobs s /\ bak s' = bak s.
+Proof. exact generate_only_keeps_index_late. Qed.
+Print Assumptions C16_generate_only_keeps_index_late.
+
+(* ... and it enters only while the lock is free (same assumption about the primitive as for `Lock`) *)
+Theorem C16_generate_only_enters_alone : forall s p s', step s (LockGen p) = Some s' -> lock s = None /\ lock s' = Some p.
+Proof. exact generate_only_enters_alone. Qed.
+Print Assumptions C16_generate_only_enters_alone.
+
+(* sensitivity: with an __exit__ that removes jobs.bak whenever the lock is held (not the code), a generate-only
+   run ending normally after an aborted normal run loses a job of the last completed plan                  *)
+Theorem C16_genrm_variant_refuted : exists tr s,
+  run_genrm init tr = Some s /\ ~ incl (kept_w tr) (names (jobs s) ++ names (bakl s)) /\ In 2 (orphans s).
+Proof. exact genrm_variant_refuted. Qed.
+Print Assumptions C16_genrm_variant_refuted.
+
 (* Mutual exclusion.  That an fcntl lock on one file excludes two PROCESSES is an assumption, written into
    the model as the guard of `Lock` (enabled only while `lock = None`) and observed on the implementation
    by the two- and three-process probes; it is not derived.  What the next five statements add is the
